@@ -9,9 +9,9 @@ package accumulation
 //
 // What is NOT the real code: the analysis driver and the function analyzer's goroutine fan-out
 // (function.run) - the harness calls BackpropAcrossFunc function by function in declaration order -
-// ctrlflow's no-return bookkeeping (cfg.New is told every call may return), and the affiliation,
-// anonymous-function, contract and struct-field analyzers, whose results are empty (the grammars have
-// no interfaces, literals, contracts worth inferring or struct fields).
+// ctrlflow's no-return bookkeeping (cfg.New is told every call may return), and the anonymous-function,
+// contract and struct-field analyzers, whose results are empty (the grammars have no literals, contracts
+// worth inferring or struct fields). The affiliation analyzer (interfaces) runs when pipeAffiliation is set.
 
 //verif:init go/types
 //verif:init go/token
@@ -32,6 +32,7 @@ package accumulation
 //verif:init go.uber.org/nilaway/assertion/function/producer
 //verif:init go.uber.org/nilaway/assertion/function/assertiontree
 //verif:init go.uber.org/nilaway/assertion/global
+//verif:init go.uber.org/nilaway/assertion/affiliation
 //verif:init go.uber.org/nilaway/inference
 //verif:init go.uber.org/nilaway/diagnostic
 
@@ -45,6 +46,7 @@ import (
 
 	"go.uber.org/nilaway/annotation"
 	"go.uber.org/nilaway/assertion"
+	"go.uber.org/nilaway/assertion/affiliation"
 	"go.uber.org/nilaway/assertion/anonymousfunc"
 	"go.uber.org/nilaway/assertion/function/assertiontree"
 	"go.uber.org/nilaway/assertion/function/functioncontracts"
@@ -60,6 +62,9 @@ var pipeDebug bool
 
 // pipeGroupMessages is the -group-error-messages flag the pipeline runs with (default as in NilAway: on).
 var pipeGroupMessages = true
+
+// pipeAffiliation also runs the affiliation analyzer (interface implementations); off for the grammars without interfaces.
+var pipeAffiliation bool
 
 type pipeResult struct {
 	diags    []analysis.Diagnostic
@@ -234,6 +239,18 @@ func pipeAnalysePkg(path, fileName, src string, deps []pipeDep) (res pipeResult,
 			}
 		}
 	}
+	if pipeAffiliation {
+		out, err := affiliation.Analyzer.Run(pass)
+		if err != nil {
+			res.funcErrs = append(res.funcErrs, err.Error())
+		}
+		if r, ok := out.(*analysishelper.Result[[]annotation.FullTrigger]); ok {
+			if r.Err != nil {
+				res.funcErrs = append(res.funcErrs, r.Err.Error())
+			}
+			triggers = append(triggers, r.Res...)
+		}
+	}
 	triggers = append(triggers, globalTriggers...)
 	res.triggers = len(triggers)
 	results[assertion.Analyzer] = &analysishelper.Result[[]annotation.FullTrigger]{Res: triggers}
@@ -246,7 +263,7 @@ func pipeAnalysePkg(path, fileName, src string, deps []pipeDep) (res pipeResult,
 	return res, facts
 }
 
-var ndHarnesses = map[string]func(){"Harness_Pipe_Smoke": Harness_Pipe_Smoke, "Harness_P08": Harness_P08, "Harness_P01": Harness_P01, "Harness_P07": Harness_P07, "Harness_P01L": Harness_P01L, "Harness_P08_Ok": Harness_P08_Ok, "Harness_P01X": Harness_P01X, "Harness_P01R": Harness_P01R, "Harness_P13": Harness_P13, "Harness_P10": Harness_P10}
+var ndHarnesses = map[string]func(){"Harness_Pipe_Smoke": Harness_Pipe_Smoke, "Harness_P08": Harness_P08, "Harness_P01": Harness_P01, "Harness_P07": Harness_P07, "Harness_P01L": Harness_P01L, "Harness_P08_Ok": Harness_P08_Ok, "Harness_P01X": Harness_P01X, "Harness_P01R": Harness_P01R, "Harness_P13": Harness_P13, "Harness_P10": Harness_P10, "Harness_P09": Harness_P09}
 
 // Harness_Pipe_Smoke: two fixed programs, one with an unguarded dereference of a nil local, one guarded.
 func Harness_Pipe_Smoke() {
